@@ -62,4 +62,16 @@ let () =
              if ns = nd then "same" else if ns < nd then "scatter " ^ show (sw_scatter_axis s d)
              else "gather " ^ show (sw_gather_axis s d)
          | _ -> failwith "swkind: two nodes")
-    | _ -> failwith "swkind")
+    | _ -> failwith "swkind");
+  (* swctor l , l / l / l | p p / p / p : the constructor's choice -> "mx | topology | ax / ax / ..." or "none" *)
+  register "swctor" (fun t ->
+    match split_on "|" t with
+    | [lays; procs] ->
+        let layouts = List.map (fun h -> List.map sw_nats (split_on "," h)) (split_on "/" lays) in
+        let nprocs = List.map sw_nats (split_on "/" procs) in
+        (match sw_ctor layouts nprocs with
+         | None -> "none"
+         | Some ((mx, topo), axes) ->
+             let si l = String.concat " " (List.map (fun x -> string_of_int (int_of_nat x)) l) in
+             string_of_int (int_of_nat mx) ^ " | " ^ si topo ^ " | " ^ String.concat " / " (List.map si axes))
+    | _ -> failwith "swctor")
